@@ -188,6 +188,7 @@ class Names(Harness):
             # union of actions: one node per distinct computation, lowering by name unambiguous
             a1 = fluent.Action(xr.DataArray(np.array([n1], dtype=object), dims=["d"]))
             a2 = fluent.Action(xr.DataArray(np.array([n2], dtype=object), dims=["d"]))
+            pay_before = [(list(n.payload[1]), dict(n.payload[2])) for n in (n1, n2)]
             try:
                 casc = ew.Cascade.from_actions([a1, a2])
                 nodes = list(casc._graph.nodes())
@@ -202,6 +203,21 @@ class Names(Harness):
                 raise Violation("union-not-deduplicated", f"{len(nodes)} nodes for {want} distinct computations")
             if len(job.tasks) != len(nodes):
                 raise Violation("lowering-by-name-ambiguous", f"{len(job.tasks)} tasks for {len(nodes)} nodes")
+            if [(list(n.payload[1]), dict(n.payload[2])) for n in (n1, n2)] != pay_before:
+                raise Violation("lowering-rewrote-node-payloads", f"{pay_before} -> {[n.payload[1:] for n in (n1, n2)]}")
+            # in-place union with a separately built copy of the second program (equal names, distinct node objects)
+            srcs2 = [fluent.Node(fluent.Payload(s0), name="s0"), fluent.Node(fluent.Payload(s1), name="s1")]
+            fn2 = CALLABLES[params["c2"]][1]
+            pay2 = fluent.Payload(fn2) if isinstance(fn2, functools.partial) else fluent.Payload(fn2, list(d2[0]), dict(d2[1]))
+            n2copy = fluent.Node(pay2, [srcs2[i] for i in d2[2]])
+            acc = ew.Cascade.from_actions([a1, a2])
+            try:
+                acc += ew.Cascade.from_actions([fluent.Action(xr.DataArray(np.array([n2copy], dtype=object), dims=["d"]))])
+                accn = list(acc._graph.nodes())
+            except Exception as e:
+                raise Violation(f"in-place-union-raised-{type(e).__name__}", str(e)[:200])
+            if len({n.name for n in accn}) != len(accn) or len(accn) != want:
+                raise Violation("in-place-union-not-deduplicated", f"{len(accn)} nodes, {len({n.name for n in accn})} names, expected {want}")
 
 
 def snapshot(action):
